@@ -3,7 +3,7 @@ import os
 from xml.parsers.expat import ExpatError
 from typing import Optional, Tuple, Union
 
-from plistlib import dumps, load
+from plistlib import dumps, load, InvalidFileException
 
 from . import json
 from .edits import Edit, EditCollection, Match
@@ -164,7 +164,7 @@ class PLIST(Filetype):
     def build_tree_handling_errors(self, path: str, options: Optional[BuildOptions] = None) -> Union[str, TreeNode]:
         try:
             return self.build_tree(path=path, options=options)
-        except ExpatError as ee:
+        except (ExpatError, InvalidFileException, ValueError, LookupError) as ee:
             return f'Error parsing {os.path.basename(path)}: {ee})'
 
     def get_default_formatter(self) -> PLISTFormatter:
